@@ -25,10 +25,22 @@ Tie
       vrs       srs.vrs on uniform / log / random grids, with and without off-grid Fn, vs the model's
                 area weights and transmissibility (psd.interp's output fed to both sides); merged grid
                 np.unique(hstack(freq, Fn)) exactly; Miles' value
+      frf       srs.srs_frf as a routine vs the model `srsFrf` (Model/SrsFrf.lean): what is returned (sh / srs_frq /
+                resp, shapes incl. resp['frfs'] = (len(freq), nfrf, len(srs_frq))) EXACT; the merged analysis grid
+                resp['freq'] EXACT (bit patterns; near-duplicate chains, gaps around and equal to 1e-5, default
+                srs_frq, unsorted / repeated oscillators); sh and the complex frfs numerically (1e-9); magnitude /
+                signed / complex / 1-D / one-line FRFs, scale_by_Q_only, rigid-body threshold, the refused option
+                pair, dtype axis (float32 / complex64 / int / lists)
+      freqvec   srs.srs with repeated (adjacent / apart), unsorted and zero entries of `freq` (incl. ic='steady' at
+                0 Hz), 1-D / 2-D / one-oscillator packaging: sh.shape, hist.shape EXACT, values 1e-9; dtype axis:
+                float32 / int / list signals and frequency vectors
+      callable  srs.srs with a callable `peak` (mean square, abs) x eqsine vs the model `srsColG`
 Oracle (model-free): exact oscillator response by an augmented-matrix exponential
 (scipy.linalg.expm, dimensionless time) under each initial-condition rule, window and peak
-statistic; roll-off decision and factor in exact rational arithmetic; spectrum relations;
-srs_frf / vrs / Miles closed forms.
+statistic; roll-off decision and factor in exact rational arithmetic; spectrum relations (incl. re-ordered /
+repeated frequency vectors bit for bit, shapes, callable peaks, rms, dtype); srs_frf restated with numpy only
+(union grid, de-duplication, np.interp, transfer function, maximum, scale_by_Q_only, defaults, getresp
+dictionary); vrs / Miles closed forms.
 """
 import math
 import struct
@@ -73,8 +85,11 @@ TRUSTED = [
     "VALUES (dsp.resample, scipy.signal.resample, filtfilt, interp1d) are not modelled: the real output is fed to the model "
     "(contract: C19); the lengths N*factor-1 / factor*(N - N%2) / N*factor are measured by the index stream",
     "vrs: merged grid, quadrature weights, transmissibility and Miles' formula are modelled and tied; psd.interp is fed to both "
-    "sides; srs_frf: the transfer function identity is proved, the routine itself (frequency merging, interpolation, max) is "
-    "checked by the oracle only",
+    "sides",
+    "srs_frf: np.sort modelled as insertion sort, np.diff(...) > 1e-5 as the predecessor test, scipy interp1d(kind='linear', "
+    "fill_value=0, assume_sorted=True) as its 2-D code path _call_linear (searchsorted-left, clip to [1, n-1], slope*(x-x_lo)+y_lo), "
+    "complex division / abs as real arithmetic on (re, im) pairs (numpy uses Smith's division and hypot: measured, 1e-9); "
+    "frf_frq is assumed strictly increasing (the code passes assume_sorted=True and does not check)",
 ]
 RULE = (
     "coef: seeded (Q, sr, fn) with Q in (0.5, 200], sr/fn log-uniform in [2.05, 2000] plus wn = 0, six stypes; "
@@ -84,8 +99,12 @@ RULE = (
     "srs.srs call compared on all histories and spectrum values; rolloff: the four resamplers, ppc in {8, 10.5, 12, 20}, "
     "triggered and not triggered, records of 2-128 samples; index: 5 rolloff x 3 time x 9-11 lengths (1, 2, ...) x 13 "
     "(sr, freq, ppc) configurations (boundary sr/max(freq) = ppc, one ulp below/above, 0 Hz, several ppc); "
-    "exact0/steady/resid: six stypes x seeded records; non-trivial = the response history is not identically zero; "
-    "distinct by the full input"
+    "exact0/steady/resid: six stypes x seeded records; frf: 60 (thorough 400) random FRFs (2-12 lines, 1-3 columns, magnitude / "
+    "signed / complex, 1-5 oscillators inside and outside the FRF band, sorted / unsorted / repeated, getresp and return_srs_frq "
+    "cycled), default srs_frq, 10 near-duplicate gap patterns x 3 bases, one-line FRFs, scale_by_Q_only, five oscillators around the "
+    "rigid-body threshold, the refused option pair, six dtype variants; freqvec: 24 stype x ic combinations x 2 (thorough 8) rounds "
+    "with a repeated / unsorted / zero-containing frequency vector, records of 1-60 samples with a non-zero first sample, plus 16 "
+    "(64) dtype cases; callable: 48 (200) cases; non-trivial = the response history is not identically zero; distinct by the full input"
 )
 ASSUMPTIONS = [
     "sr/fn <= 2000 and Q > 0.5 (the property's conditioning domain); inputs outside are not generated",
@@ -97,20 +116,35 @@ ASSUMPTIONS = [
     "the error case, not counted as a failure",
     "peak='rms' on an empty residual window returns nan with a RuntimeWarning instead of raising: the model's error case "
     "covers it (index/errors streams use peak='abs')",
+    "single-precision inputs: a float32 signal is shifted by the ic rule in single precision (sig - sig[0], sig - mean) and a "
+    "float32 srs_frq of srs_frf gives single-precision natural frequencies: agreement is required to 1e-6 (1e-5 for the complex "
+    "frfs next to a resonance) instead of 1e-9; a float32 `freq` of srs.srs makes ceil(sr/minf) a single-precision quotient: only "
+    "frequencies whose cycle length sr/f is at least 0.15 away from an integer are generated for that dtype",
+    "srs_frf: frf_frq strictly increasing and finite; oscillators below sqrt(0.005)/(2 pi) = 0.01125 Hz are the code's rigid-body "
+    "branch (zero response, proved for the model, tied by correspondence; the oracle uses the same threshold); p_peak is "
+    "reproduced bit for bit only when Q*Q is exact in double precision (otherwise the grid is compared to 1e-13)",
 ]
 PARTIAL = (
     "time-domain srs path: full for rolloff='none' and f > 0 (srs_column_is_exact_response_peak: every stype x ic x peak x "
     "time x eqsine; steady_ic_exact, shift_ic_exact, residual_is_free_decay), wn = 0 coefficient branches proved exact for the "
     "rigid oscillator and the whole 0 Hz column for ic other than 'steady' (ramp_invariant_rigid, "
-    "srs_column_zero_hz_is_rigid_response_peak; ic='steady' has no steady state at 0 Hz - what the code returns there is tied by "
-    "correspondence only and lies outside the property's domain sr/fn <= 2000); roll-off: decision, factor, new rate, M/N/S and the residual start are proved for ANY resampler of the "
-    "stated output length (rolloff_indices, residual_starts_at_record_end), the resampled values are not modelled (C19) - "
-    "finding srs-rolloff-linear (factor >= 3) is stated as rolloff_linear_grid_consistent_iff; vrs: merged grid, weights, "
-    "|H|^2, quadrature proved (vrs_is_quadrature_of_H2_psd), Miles proved equal to the white-noise integral through the "
-    "pseudo-acceleration transmissibility (miles_is_white_noise_integral; the (1 + 1/Q^2) factor of the absolute-acceleration "
-    "integral is stated in prose only); not proved (oracle/correspondence only): round-off of the recursion, srs_frf's "
-    "frequency merging / interpolation / maximisation (only its transfer function srs_frf_gain_is_H), psd.interp, rms peak "
-    "relations"
+    "srs_column_zero_hz_is_rigid_response_peak); ic='steady' at 0 Hz: what the code returns is now stated and proved for absacce / "
+    "pacce / relacce / relvelo (srs_zero_hz_steady_history: rigid response to sig - sig[0] plus s1 / -s1 / nothing), for reldisp / "
+    "pvelo the code divides by wn = 0 (inf/nan) - excluded by hypothesis, skipped and counted; frequency vector: a cell depends on "
+    "`freq` only through its own entry and the set of entries (srs_column_depends_only_on_its_frequency, also through the roll-off "
+    "step), permutation / repetition proved; packaging / shapes proved on the model (srs_columnwise, srs_shapes, "
+    "srs_hist_lengths_uniform, srs_packaging_1d) and tied exactly; callable peaks and eqsine proved "
+    "(eqsine_commutes_iff_homogeneous, peak_sel_pos_homogeneous, mean_square_not_homogeneous, rms <= abs); roll-off: decision, "
+    "factor, new rate, M/N/S and the residual start are proved for ANY resampler of the stated output length, the resampled values "
+    "are not modelled (C19) - finding srs-rolloff-linear (factor >= 3) is stated as rolloff_linear_grid_consistent_iff; vrs: merged "
+    "grid, weights, |H|^2, quadrature proved, Miles proved equal to the white-noise integral through the pseudo-acceleration "
+    "transmissibility (the (1 + 1/Q^2) factor of the absolute-acceleration integral is stated in prose only); srs_frf: the routine "
+    "is modelled and proved (grid = sorted union minus entries within 1e-5 of their predecessor, linear interpolation with zero "
+    "fill, magnitude first, maximum over the grid of |FRF| |H|, scale_by_Q_only, defaults, getresp shapes, p_peak maximises |H|). "
+    "NOT proved (oracle / correspondence only): round-off of the recursion and of numpy's complex division / hypot; psd.interp and "
+    "the step-size warning of vrs; srs_frf for an unsorted or repeated frf_frq (the code itself assumes sorted input); single-"
+    "precision inputs (measured to 1e-6); srs.srsmap (a one-line call of dsp.waterfall with srs as the mapped function: not "
+    "modelled); the parallel path (C09)"
 )
 MANIFEST = {
     "level_text": "Proof (Lean 4, kernel-checked, standard axioms only): the six coefficient functions of srs.py are "
@@ -129,14 +163,29 @@ MANIFEST = {
     "sr/max(freq) < ppc (strict), the factor ceil(ppc/(sr/mf)) is >= 2 and meets ppc, and for any resampler of the stated output "
     "length M, N, S and resp['t'] refer to the resampled record (rolloff_indices); vrs: the merged grid is the sorted union, the "
     "weights are the stated vector, the gain is |H|^2 of the complex transmissibility, z_vrs is sqrt(trapezoid + half end cells) "
-    "on any grid; srs_frf's transfer function equals H; Miles' value equals sqrt(W * integral_0^inf |H_pa|^2 df) "
-    "(improper integral evaluated in Lean). The model pipeline is tied to srs.srs by numeric correspondence over the full "
-    "option grid and by an exact index correspondence for the roll-off / window bookkeeping.",
+    "on any grid; Miles' value equals sqrt(W * integral_0^inf |H_pa|^2 df) (improper integral evaluated in Lean); srs_frf as a "
+    "routine: the analysis grid is the sorted union of frf_frq and p_peak*srs_frq without the entries that exceed their predecessor "
+    "by no more than 1e-5 (srs_frf_grid_spec / _gap), |FRF| is interpolated linearly with zero outside the FRF band and reproduces "
+    "the FRF lines (srs_frf_interp_*), every spectrum value is the maximum over that grid of |FRF|(W) |H(W/wn)| "
+    "(srs_frf_is_max_over_merged_grid; zero for the rigid-body branch), srs_frf(frf) = srs_frf(|frf|) (srs_frf_abs_invariant), "
+    "scale_by_Q_only gives Q |FRF| exactly on the FRF lines, the srs_frq / return_srs_frq defaults, the getresp shapes, and "
+    "|H(p)| <= |H(p_peak)| for the docstring's p_peak (srs_frf_p_peak_maximises_H); frequency vector: a (frequency, column) cell "
+    "depends on `freq` only through its own entry and the set of entries, so permuting / repeating entries permutes / repeats rows "
+    "(srs_column_depends_only_on_its_frequency, srs_frequency_permutation, srs_repeated_frequency_repeats_row), also through the "
+    "roll-off step; ic='steady' at 0 Hz (srs_zero_hz_steady_history); shapes and 1-D packaging; callable peaks: dividing by Q "
+    "before or after the peak agrees iff the peak is positively homogeneous (eqsine_commutes_iff_homogeneous), the six built-in "
+    "peaks are, a mean square is not; rms <= abs. The model pipeline is tied to srs.srs / srs.srs_frf by numeric correspondence "
+    "over the full option grid and by exact correspondence for the roll-off / window bookkeeping, the srs_frf grid, and every "
+    "returned shape.",
     "level_note": "Trusted: Lean kernel; propext, Classical.choice, Quot.sound; the translator and the Python harness; "
     "scipy.signal.lfilter as modelled (measured). Real-number theorems: floating-point round-off is measured by the "
     "correspondence check and the model-free oracle inside sr/fn <= 2000. Only tied/measured, not proved: the resampled "
-    "values of the four roll-off methods (fed to the model; contract C19), psd.interp, srs_frf's grid merging/interpolation/"
-    "maximum, ic='steady' at 0 Hz. Open finding reported by the oracle: rolloff='linear' with "
+    "values of the four roll-off methods (fed to the model; contract C19), psd.interp, numpy's complex division / hypot in "
+    "srs_frf, single-precision inputs (1e-6), ic='steady' at 0 Hz for reldisp / pvelo (division by zero: skipped), srs.srsmap and "
+    "the parallel path (not modelled here). Public functions of srs.py: absacce relacce reldisp pvelo pacce relvelo (translated "
+    "and proved), _absmeth.._rmsmeth, _process_ic, _add_one_cycle, srs (serial), vrs, srs_frf (modelled), fftroll lanroll "
+    "linroll preroll (when / factor / length modelled, values not), _process_parallel, _dosrs*, _mk_par_globals*, "
+    "createSharedArray, copyToSharedArray (C09), srsmap (not modelled). Open finding reported by the oracle: rolloff='linear' with "
     "factor >= 3 (linroll's np.linspace(0, t_last, N*factor-1) grid is not spaced 1/(sr*factor)).",
     "technique": "Lean 4 proof (Cayley-Hamilton elimination of the exact state recursion into the filter; sympy-found "
     "linear_combination certificates checked by the kernel; explicit antiderivative for Miles) + source->Lean translator + "
